@@ -371,6 +371,27 @@ class Schema:
         # records and entities are closed: `x has undeclared` is typed False only because conformance rejects undeclared attributes
         und = r.choice([P, R, ['var', 'context']])
         guards += [['has', und, S('undeclared')]] * 2
+        # attributes / tags of a union that mixes an ordinary entity type with an enumerated or action type (permissive mode): the bare member
+        # has no attributes at all, so the access is sound only behind a `has` of the whole union
+        if r.random() < 0.12:
+            tn = r.choice(types)
+            req = [k for k, (t_, opt_) in self.entities[tn]['attrs'].items() if not opt_]
+            others = [A, lit(gen.vent('Action', r.choice(sorted(self.actions))))]
+            if self.enums:
+                en = r.choice(sorted(self.enums))
+                others += [lit(gen.vent(en, r.choice(self.enums[en])))] * 2
+            other = r.choice(others)
+            base = self.texpr(('ent', tn), env, 1)
+            U2 = r.choice([['if', cond, base, other], ['if', cond, other, base]])
+            if req and r.random() < 0.7:
+                k_ = r.choice(req)
+                acc = ['access', U2, S(k_)]
+                body = r.choice([['eq', acc, acc], ['or', ['eq', acc, acc], lit(gen.vbool(True))], ['and', ['has', U2, S(k_)], ['eq', acc, acc]]])
+            else:
+                acc = ['getTag', U2, lit(gen.vstr('k'))]
+                body = r.choice([['eq', acc, acc], ['and', ['hasTag', U2, lit(gen.vstr('k'))], ['eq', acc, acc]]])
+            return ['policy', S('p'), r.choice(['permit', 'forbid']), ['is', S(env[0])], ['eq', gen.vent('Action', a)], ['is', S(env[2])],
+                    ['conds', ['when', body]], ['annots']]
         G = r.choice(guards)
         bads = [['gt', ['add', lit(gen.vstr('a')), lit(gen.vlong(1))], lit(gen.vlong(0))], ['like', lit(gen.vlong(1)), ['pat', ['w']]],
                 ['contains', lit(gen.vlong(1)), lit(gen.vlong(1))], ['lt', lit(gen.vlong(1)), lit(gen.vstr('a'))]]
